@@ -7,7 +7,8 @@
   decimal, bytes are hex digit pairs (`-` = none), an empty name is written `~`.
 
       obj <name> <32|64> <le|be> <machine> <etype> <entry>      begins an object
-      ph <type> <flags> <offset> <vaddr> <filesz> <memsz> <hex|->
+      ph <type> <flags> <offset> <vaddr> <paddr> <filesz> <memsz> <align> <hex|->   (bytes: the file bytes
+                                                                the header covers; the model uses them for PT_LOAD only)
       sym  <name> <value> <size> <info> <other> <shndx>         .symtab entry (index 1, 2, …)
       dsym <name> <value> <size> <info> <other> <shndx>         .dynsym entry (index 1, 2, …)
       dyn <tag> <val>                                           .dynamic entry
@@ -205,11 +206,11 @@ def step (st : St) (item : String) : St × String × String :=
         ({ st with objs := st.objs ++ [d] }, "ok", "ok")
       | _, _ => bad
     | _, _, _ => bad
-  | ["ph", t, f, o, v, fs, ms, hx] =>
-    match t.toNat?, f.toNat?, o.toNat?, v.toNat?, fs.toNat?, ms.toNat?, parseData hx with
-    | some t, some f, some o, some v, some fs, some ms, some bs =>
-      okd (st.updLast (fun d => { d with phdrs := d.phdrs ++ [⟨t, f, o, v, fs, ms, bs⟩] }))
-    | _, _, _, _, _, _, _ => bad
+  | ["ph", t, f, o, v, pa, fs, ms, al, hx] =>
+    match t.toNat?, f.toNat?, o.toNat?, v.toNat?, fs.toNat?, ms.toNat?, parseData hx, pa.toNat?, al.toNat? with
+    | some t, some f, some o, some v, some fs, some ms, some bs, some pa, some al =>
+      okd (st.updLast (fun d => { d with phdrs := d.phdrs ++ [⟨t, f, o, v, fs, ms, bs, pa, al⟩] }))
+    | _, _, _, _, _, _, _, _, _ => bad
   | ["sym", n, v, s, i, o, x] =>
     match parseSym n v s i o x with
     | some sy => okd (st.updLast (fun d => { d with syms := (if d.syms.isEmpty then [nullSym] else d.syms) ++ [sy] }))
